@@ -395,7 +395,7 @@ func (b *blk) pickSender(r *fw.Rand) *sender {
 	w := b.e.w
 	for i := 0; i < 60; i++ {
 		s := w.Senders[r.Intn(len(w.Senders))]
-		if b.e.reserved[s.Addr] {
+		if b.e.reserved[s.Addr] || b.revTouch[s.Addr] {
 			continue
 		}
 		bal := b.cur.get(s.Addr).Bal
